@@ -67,10 +67,8 @@ func VerifC17_RegistrationsVsREST() {
 		acc.Key.B[0] = byte(0x40 + i)
 		accounts[phase0.ValidatorIndex(i+1)] = acc
 	}
-	s := &Service{chainTime: vstub.NewChainTime(0), fallbackFeeRecipient: c12Fallback, fallbackGasLimit: 30000000,
-		validatorRegistrationSigner: &c11Signer{failFor: map[uint64]bool{}}, executionConfig: cfg,
-		latestValidatorRegistrations: map[phase0.BLSPubKey]phase0.Root{}, signedValidatorRegistrations: map[phase0.Root]*apiv1.SignedValidatorRegistration{},
-		controlledValidators: map[phase0.BLSPubKey]struct{}{}}
+	s := relayNew(vstub.NewChainTime(0))
+	s.executionConfig = cfg
 	var theirs phase0.BLSPubKey
 	theirs[0] = 0x42
 	done := 0
